@@ -52,6 +52,94 @@ def changeable_primitives(ctx, rule):
 
 
 
+def subscription(ctx, rule):
+    """no lost wake-up between Config::signal_change and ConfigWatched::next (shared with C15: a path set changed while the worker is busy is still applied, so its registration errors are still reported)"""
+    facts = ctx.facts
+    sc = ctx.anchor_fn(rule, "watchexec::config::Config::signal_change")
+    nx = ctx.anchor_one(rule, "ConfigWatched::next coroutine",
+                        [c for c in facts.children(ctx.anchor_fn(rule, "watchexec::config::ConfigWatched::next")) if c.kind == "coroutine"])
+    sig = [strip_generics(t.callee.path) for _, t in sc.calls() if not sc.macro(t.mac)]
+    waits = []
+    for fn in [nx] + facts.descendants(nx):
+        for _, t in fn.calls():
+            waits.append((strip_generics(t.callee.path), t))
+    notifier = [s for s in sig if s.startswith("tokio::sync::")]
+    ctx.require(len(notifier) == 1, rule, "notifier-found", "signal_change uses one tokio::sync primitive", sc.loc(sc.line), detail=str(notifier))
+    n = notifier[0] if notifier else ""
+    wnames = {w for w, _ in waits}
+    fresh_notified = "tokio::sync::notify::Notify::notified" in wnames
+    changed = "tokio::sync::watch::Receiver::changed" in wnames
+    if n.endswith("Notify::notify_waiters"):
+        ctx.require(not fresh_notified and not changed and False, rule, "protocol",
+                    "notify_waiters is paired with a waiter that cannot miss it", nx.loc(nx.line),
+                    fail="Config::signal_change uses Notify::notify_waiters (no permit is stored) while ConfigWatched::next creates a fresh Notified on "
+                         "every call: a change signalled while the worker is busy applying the previous one wakes nobody and is lost")
+    elif n.startswith("tokio::sync::watch::Sender::send"):
+        ctx.require(changed and not fresh_notified, rule, "protocol",
+                    "watch::Sender::send* is paired with watch::Receiver::changed (the receiver remembers the last version seen)", nx.loc(nx.line),
+                    fail="the change signal is a watch channel but ConfigWatched::next does not wait with Receiver::changed()")
+        # the receiver lives in the struct (state kept across calls), not created per call
+        percall = "tokio::sync::watch::Sender::subscribe" in wnames or "tokio::sync::watch::Receiver::mark_unchanged" in wnames \
+            or "tokio::sync::watch::Receiver::mark_changed" in wnames or "tokio::sync::watch::Receiver::borrow_and_update" in wnames
+        ctx.require(not percall, rule, "receiver-persistent", "the receiver's seen-version is not reset inside next()", nx.loc(nx.line),
+                    fail="ConfigWatched::next re-subscribes / resets the seen version on every call: changes signalled between calls are lost")
+    elif n.endswith("Notify::notify_one"):
+        ctx.violation(rule, "protocol", "notify_one stores a single permit but two workers (fs, keyboard) wait for config changes", sc.loc(sc.line))
+    else:
+        ctx.incomplete(rule, "protocol", "unknown change-signal primitive %s" % n, sc.loc(sc.line))
+    # the subscription's own table: the first call returns at once (so the initial configuration is applied), later calls
+    # return exactly when a change was seen; a closed channel parks the worker for good
+    cn = ctx.anchor_fn(rule, "watchexec::config::ConfigWatched::new")
+    v = thir.expr_value(thir.root(cn))
+    ctx.require(v[0] == "v" and v[3].get("first_run") == ("b", True) and v[3].get("changes") == ("var", "changes"), rule, "subscription-new",
+                "a new subscription has first_run = true and the given receiver", cn.loc(cn.line), detail=str(v)[:200],
+                fail="a new ConfigWatched does not start in the first-run state: the configuration present at start-up is never applied")
+    if n.startswith("tokio::sync::watch::Sender::send"):
+        from ..throttle import implies
+        FR = "self.first_run"
+        ERR = "Result::is_err(await Receiver::changed(self.changes))"
+        rows = {"first": 0, "changed": 0, "closed": 0}
+        badp = []
+        for q in pathx.Enum().paths(thir.root(nx)):
+            fr = err = None
+            for e in q.ev:
+                if e[0] == "branch":
+                    for atom, tgt in ((FR, "fr"), (ERR, "err")):
+                        if implies(e[1].replace("Result::is_ok(", "Not Result::is_err("), e[2], atom, True):
+                            fr, err = (True, err) if tgt == "fr" else (fr, True)
+                        elif implies(e[1].replace("Result::is_ok(", "Not Result::is_err("), e[2], atom, False):
+                            fr, err = (False, err) if tgt == "fr" else (fr, False)
+            waits = [e for e in q.ev if e[0] == "call" and strip_generics(e[1]).endswith("watch::Receiver::changed")]
+            parks = [e for e in q.ev if e[0] == "call" and strip_generics(e[1]).endswith("pending::pending")]
+            clr = [e for e in q.ev if e[0] == "assign" and e[1] == FR and e[2] == "False"]
+            sh = pathx.show_events(q.ev)
+            if fr is True:
+                rows["first"] += 1
+                if waits or parks or not clr:
+                    badp.append("first call: " + sh)
+            elif fr is False and err is False:
+                rows["changed"] += 1
+                if len(waits) != 1 or parks:
+                    badp.append("after a change: " + sh)
+            elif fr is False and err is True:
+                rows["closed"] += 1
+                if len(waits) != 1 or len(parks) != 1:
+                    badp.append("config gone: " + sh)
+            else:
+                badp.append("undetermined: " + sh)
+        ctx.require(not badp and all(rows.values()), rule, "subscription-table",
+                    "next(): first call -> returns at once and clears first_run; later -> awaits changed() once and returns; closed -> parks forever",
+                    nx.loc(nx.line), detail="; ".join(badp)[:500],
+                    fail="ConfigWatched::next no longer follows its table: " + "; ".join(badp)[:300])
+    # both workers wait through ConfigWatched
+    users = []
+    for fn in facts.crate_fns(LIB):
+        for _, t in fn.calls():
+            if t.callee.is_("config::Config::watch"):
+                users.append(fn.def_)
+    ctx.floor(rule, "workers waiting through Config::watch", len(users), 2)
+
+
 def run(ctx):
     ctx.level = "other"
     facts = ctx.facts
@@ -65,6 +153,7 @@ def run(ctx):
                       "`pathset`, the shadow set is cleared")
     ctx.rule("R13.3", "application loops: the shadow set is updated (remove / insert) exactly on the success edge of unwatch / watch; on failure every "
                       "produced RuntimeError is sent and the loop goes on with the next path; unwatching precedes watching")
+    ctx.also("R13.3", 'every error sent on the error channel reaches the handler exactly once (shared with R15.3)')
     ctx.rule("R13.7", "frame condition: the fs worker carries no state from one round to the next other than watcher, watcher_type, the shadow set "
                       "and the change subscription (so nothing read from the configuration can go stale across rounds)")
     ctx.rule("R13.8", "keyboard source: (enabled, not watching) -> spawn the stdin watcher and keep its close handle; (disabled, watching) -> take the handle "
@@ -79,89 +168,7 @@ def run(ctx):
 
     # ---- R13.1
     try:
-        sc = ctx.anchor_fn("R13.1", "watchexec::config::Config::signal_change")
-        nx = ctx.anchor_one("R13.1", "ConfigWatched::next coroutine",
-                            [c for c in facts.children(ctx.anchor_fn("R13.1", "watchexec::config::ConfigWatched::next")) if c.kind == "coroutine"])
-        sig = [strip_generics(t.callee.path) for _, t in sc.calls() if not sc.macro(t.mac)]
-        waits = []
-        for fn in [nx] + facts.descendants(nx):
-            for _, t in fn.calls():
-                waits.append((strip_generics(t.callee.path), t))
-        notifier = [s for s in sig if s.startswith("tokio::sync::")]
-        ctx.require(len(notifier) == 1, "R13.1", "notifier-found", "signal_change uses one tokio::sync primitive", sc.loc(sc.line), detail=str(notifier))
-        n = notifier[0] if notifier else ""
-        wnames = {w for w, _ in waits}
-        fresh_notified = "tokio::sync::notify::Notify::notified" in wnames
-        changed = "tokio::sync::watch::Receiver::changed" in wnames
-        if n.endswith("Notify::notify_waiters"):
-            ctx.require(not fresh_notified and not changed and False, "R13.1", "protocol",
-                        "notify_waiters is paired with a waiter that cannot miss it", nx.loc(nx.line),
-                        fail="Config::signal_change uses Notify::notify_waiters (no permit is stored) while ConfigWatched::next creates a fresh Notified on "
-                             "every call: a change signalled while the worker is busy applying the previous one wakes nobody and is lost")
-        elif n.startswith("tokio::sync::watch::Sender::send"):
-            ctx.require(changed and not fresh_notified, "R13.1", "protocol",
-                        "watch::Sender::send* is paired with watch::Receiver::changed (the receiver remembers the last version seen)", nx.loc(nx.line),
-                        fail="the change signal is a watch channel but ConfigWatched::next does not wait with Receiver::changed()")
-            # the receiver lives in the struct (state kept across calls), not created per call
-            percall = "tokio::sync::watch::Sender::subscribe" in wnames or "tokio::sync::watch::Receiver::mark_unchanged" in wnames \
-                or "tokio::sync::watch::Receiver::mark_changed" in wnames or "tokio::sync::watch::Receiver::borrow_and_update" in wnames
-            ctx.require(not percall, "R13.1", "receiver-persistent", "the receiver's seen-version is not reset inside next()", nx.loc(nx.line),
-                        fail="ConfigWatched::next re-subscribes / resets the seen version on every call: changes signalled between calls are lost")
-        elif n.endswith("Notify::notify_one"):
-            ctx.violation("R13.1", "protocol", "notify_one stores a single permit but two workers (fs, keyboard) wait for config changes", sc.loc(sc.line))
-        else:
-            ctx.incomplete("R13.1", "protocol", "unknown change-signal primitive %s" % n, sc.loc(sc.line))
-        # the subscription's own table: the first call returns at once (so the initial configuration is applied), later calls
-        # return exactly when a change was seen; a closed channel parks the worker for good
-        cn = ctx.anchor_fn("R13.1", "watchexec::config::ConfigWatched::new")
-        v = thir.expr_value(thir.root(cn))
-        ctx.require(v[0] == "v" and v[3].get("first_run") == ("b", True) and v[3].get("changes") == ("var", "changes"), "R13.1", "subscription-new",
-                    "a new subscription has first_run = true and the given receiver", cn.loc(cn.line), detail=str(v)[:200],
-                    fail="a new ConfigWatched does not start in the first-run state: the configuration present at start-up is never applied")
-        if n.startswith("tokio::sync::watch::Sender::send"):
-            from ..throttle import implies
-            FR = "self.first_run"
-            ERR = "Result::is_err(await Receiver::changed(self.changes))"
-            rows = {"first": 0, "changed": 0, "closed": 0}
-            badp = []
-            for q in pathx.Enum().paths(thir.root(nx)):
-                fr = err = None
-                for e in q.ev:
-                    if e[0] == "branch":
-                        for atom, tgt in ((FR, "fr"), (ERR, "err")):
-                            if implies(e[1].replace("Result::is_ok(", "Not Result::is_err("), e[2], atom, True):
-                                fr, err = (True, err) if tgt == "fr" else (fr, True)
-                            elif implies(e[1].replace("Result::is_ok(", "Not Result::is_err("), e[2], atom, False):
-                                fr, err = (False, err) if tgt == "fr" else (fr, False)
-                waits = [e for e in q.ev if e[0] == "call" and strip_generics(e[1]).endswith("watch::Receiver::changed")]
-                parks = [e for e in q.ev if e[0] == "call" and strip_generics(e[1]).endswith("pending::pending")]
-                clr = [e for e in q.ev if e[0] == "assign" and e[1] == FR and e[2] == "False"]
-                sh = pathx.show_events(q.ev)
-                if fr is True:
-                    rows["first"] += 1
-                    if waits or parks or not clr:
-                        badp.append("first call: " + sh)
-                elif fr is False and err is False:
-                    rows["changed"] += 1
-                    if len(waits) != 1 or parks:
-                        badp.append("after a change: " + sh)
-                elif fr is False and err is True:
-                    rows["closed"] += 1
-                    if len(waits) != 1 or len(parks) != 1:
-                        badp.append("config gone: " + sh)
-                else:
-                    badp.append("undetermined: " + sh)
-            ctx.require(not badp and all(rows.values()), "R13.1", "subscription-table",
-                        "next(): first call -> returns at once and clears first_run; later -> awaits changed() once and returns; closed -> parks forever",
-                        nx.loc(nx.line), detail="; ".join(badp)[:500],
-                        fail="ConfigWatched::next no longer follows its table: " + "; ".join(badp)[:300])
-        # both workers wait through ConfigWatched
-        users = []
-        for fn in facts.crate_fns(LIB):
-            for _, t in fn.calls():
-                if t.callee.is_("config::Config::watch"):
-                    users.append(fn.def_)
-        ctx.floor("R13.1", "workers waiting through Config::watch", len(users), 2)
+        subscription(ctx, "R13.1")
     except Skip:
         pass
 
@@ -345,6 +352,7 @@ def run(ctx):
     try:
         from . import c15 as _c15b
         _c15b.multi_path_errors(ctx, "R13.3")
+        _c15b.error_hook_table(ctx, "R13.3")       # ... and each of those errors reaches the handler once (no suppression between the channel and the handler)
     except Skip:
         pass
 
